@@ -98,7 +98,7 @@ def build_coq():
 
 def build_runner():
     with Lock('runner'):
-        srcs = [COQ + '/model.ml', COQ + '/model.mli', VERIF + '/extract/sexp.ml', VERIF + '/extract/driver.ml']
+        srcs = [COQ + '/model.ml', COQ + '/model.mli', VERIF + '/extract/main.ml']
         if os.path.exists(RUNNER) and all(os.path.getmtime(s) <= os.path.getmtime(RUNNER) for s in srcs):
             return True, 'cached'
         rc, out = sh(VERIF + '/bin/build_runner', timeout=600)
@@ -493,11 +493,12 @@ def _main(prop, pid, tier, seed, replay, rundir, t0):
                     rel_mism.append(i); impl[i] = o
             notes.append('release profile: %d cases re-run, %d mismatches' % (len(idx_r), len(rel_mism)))
             mism = mism + rel_mism
-    # thorough tier, `lap` properties: a sample of the cases is re-evaluated inside Coq (vm_compute over coq/LapRun.v) and
-    # compared with what the extracted runner answered: cross-check of the extraction and of the OCaml glue
-    if tier == 'thorough' and not replay and getattr(prop, 'CROSSCHECK', False):
+    # thorough tier: a sample of the cases is re-evaluated inside Coq (vm_compute of Run.run_case, the Gallina case
+    # interpreter the runner is extracted from) and compared with what the extracted runner answered: cross-check of the
+    # extraction, the OCaml compiler and the tokenizer/printer extract/main.ml
+    if tier == 'thorough' and not replay:
         import crosscheck
-        step = max(1, len(cases) // 200)
+        step = max(1, len(cases) // 400)
         n_cc, err_cc = crosscheck.run(COQ, rundir, texts[::step], model[::step], limit=60)
         notes.append('in-Coq cross-check of the extracted runner: %d cases re-evaluated by vm_compute, %s' % (n_cc, 'all equal' if err_cc is None else 'MISMATCH'))
         if err_cc is not None:
@@ -585,7 +586,7 @@ def finish(prop, pid, tier, seed, t0, pr, cases, mism, violations, known_lines, 
                 'Coq 8.16.1 kernel (coqc); no native_compute; vm_compute only in Examples / *_refuted witnesses',
                 'axioms: none (Print Assumptions of every listed theorem must be "Closed under the global context")',
                 'extraction to OCaml with ExtrOcamlBasic only (Extract Inductive bool/option/unit/list/prod/sumbool/sumor); no Extract Constant; OCaml 4.13.1',
-                'hand-written glue: extract/sexp.ml, extract/driver.ml, harness/src/*.rs, lib/*.py (case generation, canonical forms, comparison)',
+                'hand-written glue: extract/main.ml (70-line tokenizer/printer; the case interpreter itself is Gallina, coq/Run.v, extracted with the model and re-evaluated in Coq on a sample in the thorough tier), harness/src/*.rs, lib/*.py (case generation, canonical forms, comparison)',
                 'all of bed-utils is modelled (hand-written Gallina), tied to /repo by the differential correspondence run on every check'],
             theorems=pr['theorems'], axioms_reported=pr['axioms'], coqchk=pr.get('coqchk', 'not run (thorough tier only)'),
             evaluations=len(cases), distinct_nontrivial=nontriv,
